@@ -238,7 +238,10 @@ class SchedSuite:
             il = impl.get(cid, cid + " MISSING")
             res = il.split(" ")[1:]
             mres = model.get(cid, "").split(" ")[1:]
-            if len(mres) == len(c.split(" ")) - 2 and len(res) >= len(mres) and "DRIVER-ERROR" not in model.get(cid, ""):
+            # with several concurrently spawned writers the order in which they enter the writer
+            # queue is decided by the OS scheduler: both orders are correct, the model run fixes one
+            one_thread = sum(1 for t in c.split(" ")[2:] if t[0] == "T") <= 1
+            if one_thread and len(mres) == len(c.split(" ")) - 2 and len(res) >= len(mres) and "DRIVER-ERROR" not in model.get(cid, ""):
                 for i, (a, b) in enumerate(zip(res, mres)):
                     if b != "*" and a != b and not a.startswith("parked@"):
                         corr.append({"case": c, "impl": lib.trunc(il, 800), "model": lib.trunc(model.get(cid, ""), 800),
